@@ -550,7 +550,7 @@ func (e *Env) evalIndex(x EIndex) TV {
 		sv := base.V.(SliceVal)
 		if sv.Elem.K == KStruct {
 			// located struct element: fields are read through "elems:<T>.<field>" components
-			return TV{PtrVal{Loc: Loc{"elems:" + sv.Elem.String(), []Term{sv.Arr, Add(sv.Off, idx)}}, Elem: sv.Elem}, sv.Elem}
+			return TV{PtrVal{Loc: Loc{"elems:" + sv.Elem.String(), []Term{sv.Arr, vc.sidx(sv.Off, idx)}}, Elem: sv.Elem}, sv.Elem}
 		}
 		return TV{vc.sliceElem(e.heap, sv, idx), sv.Elem}
 	case KSeq:
@@ -591,7 +591,23 @@ func (e *Env) evalQuant(x EQuant) TV {
 	if x.Forall {
 		return TV{Forall(bound, body, pats...), tBool}
 	}
-	return TV{Exists(bound, body, pats...), tBool}
+	ex := Exists(bound, body, pats...)
+	if len(x.Witnesses) > 0 && len(x.Vars) == 1 {
+		// candidate witnesses: the existential is offered as a disjunction of instances as well (each
+		// instance implies the existential, so this only helps the solver find a witness)
+		alts := []Term{ex}
+		for _, wexpr := range x.Witnesses {
+			we := *e
+			we.vars = make(map[string]TV, len(e.vars)+1)
+			for k, v := range e.vars {
+				we.vars[k] = v
+			}
+			we.vars[x.Vars[0].Name] = e.eval(wexpr)
+			alts = append(alts, we.asBool(we.eval(x.Body)))
+		}
+		return TV{Or(alts...), tBool}
+	}
+	return TV{ex, tBool}
 }
 
 func (e *Env) evalCall(x ECall) TV {
@@ -834,7 +850,7 @@ func (vc *VC) elemsComp(el SType) string {
 }
 
 func (vc *VC) sliceElemTerm(h *Heap, sv SliceVal, i Term) Term {
-	return Select(Select(vc.hget(h, vc.elemsComp(sv.Elem)), sv.Arr), Add(sv.Off, i))
+	return Select(Select(vc.hget(h, vc.elemsComp(sv.Elem)), sv.Arr), vc.sidx(sv.Off, i))
 }
 
 func (vc *VC) sliceElem(h *Heap, sv SliceVal, i Term) Value {
@@ -999,7 +1015,7 @@ func (vc *VC) qualifiedGlobalIn(e *Env, path, name string) (TV, bool) {
 		}
 	case *types.Var:
 		t := FromGo(o.Type())
-		loc := Loc{"global:" + path + "." + name, []Term{Zero}}
+		loc := Loc{"global:" + path + "." + name, []Term{vc.globalsRef()}}
 		return TV{vc.readLoc(e.heap, loc, t), t}, true
 	}
 	return TV{}, false
@@ -1136,11 +1152,11 @@ func (vc *VC) inseqAxioms(a, off, n Term) {
 	vc.inseq(a, off, n, Zero)
 	j := Term{"j!", SInt}
 	y := Term{"y!", SInt}
-	el := Select(a, Add(off, j))
+	el := Select(a, vc.sidx(off, j))
 	vc.script.Assume(Forall([]Term{j}, Implies(And(Le(Zero, j), Lt(j, n)), vc.inseq(a, off, n, el)), []Term{el}))
 	vc.script.Assume(Forall([]Term{y}, Implies(vc.inseq(a, off, n, y), Exists([]Term{j}, And(Le(Zero, j), Lt(j, n), Eq(el, y)))), []Term{vc.inseq(a, off, n, y)}))
 	// one-step unfolding for this particular length (no recursion: the shorter prefix gets no axiom of its own)
-	last := Select(a, Add(off, Sub(n, One)))
+	last := Select(a, vc.sidx(off, Sub(n, One)))
 	vc.script.Assume(Forall([]Term{y}, Eq(vc.inseq(a, off, n, y), And(Gt(n, Zero), Or(vc.inseq(a, off, Sub(n, One), y), Eq(last, y)))), []Term{vc.inseq(a, off, n, y)}))
 }
 
@@ -1180,4 +1196,17 @@ func (vc *VC) elemLanes(el SType) []lane {
 func (vc *VC) isCopy(r, v Term) Term {
 	vc.declareOnce("iscopy", "(declare-fun iscopy (Int Int) Bool)\n(assert (forall ((r! Int) (v! Int)) (! (=> (iscopy r! v!) (= (= r! 0) (= v! 0))) :pattern ((iscopy r! v!)))))")
 	return app(SBool, "iscopy", r, v)
+}
+
+
+// sidx(off, i) is the position of element i of a slice that starts at offset off in its backing array. It
+// is an uninterpreted symbol defined by the axiom sidx(o, i) = o + i, so that element terms have the same
+// syntactic shape everywhere (quantifier triggers of the form (+ off i) do not survive the solvers'
+// arithmetic normalisation). A literal zero offset is elided.
+func (vc *VC) sidx(off, i Term) Term {
+	if off.S == "0" {
+		return i
+	}
+	vc.declareOnce("sidx", "(declare-fun sidx (Int Int) Int)\n(assert (forall ((o! Int) (i! Int)) (! (= (sidx o! i!) (+ o! i!)) :pattern ((sidx o! i!)))))")
+	return app(SInt, "sidx", off, i)
 }
